@@ -342,10 +342,21 @@ class Model:
         for c in self.classes:
             if not c.module.name.startswith('streamz') or '.tests' in c.module.name:
                 continue
+            # (only through a chain of private bases: a class that inherits the base through a concrete node class - a Dask
+            # mix-in over core.buffer - inherits that node's methods like any others and is not a second owner of them)
+            near, work = [], list(c.bases)
+            while work:
+                b = work.pop(0)
+                if b.name.startswith('_') and not b.name.startswith('__') and b.module.name.startswith('streamz') \
+                        and not b.registrations and b not in near:
+                    near.append(b)
+                    work.extend(b.bases)
             for b in (c.mro or [])[1:]:
                 if b.name.startswith('_') and not b.name.startswith('__') and b.module.name.startswith('streamz') \
                         and not b.registrations:
                     self.private_bases.add(b)
+                    if b not in near:
+                        continue
                     for name, fn in b.methods.items():
                         if name not in c.methods and c.find(name) is fn:
                             c.methods[name] = fn
